@@ -4,6 +4,7 @@ from ..flow import origins
 from ..props import prop
 from . import common
 from .common import is_callee, flows_into, find_method, inherent_methods, depth_dataflow, error_exit_blocks
+from .c03 import kind_deep
 
 VP = "analysis::visit::VisitProgram"
 VE = "analysis::visit::VisitExpr"
@@ -64,7 +65,7 @@ def pair_rule(ctx, env):
                     why = ("the body at line %s can run again without the scope having been %s in between: locals of one "
                            "activation (iteration) survive into the next" % (fn.term(b)["line"], "popped" if again_no_pop else "pushed afresh"))
             rep.ob("C05.R1", "fresh-scope-per-activation::%s" % path, ok, why, fn.loc(fn.term(b)["line"]), how="depth 1, pop+push on every cycle")
-    rep.floor("C05.R1", n_push, 3, "scope push sites")
+    rep.floor("C05.R1", n_push, 2, "scope push sites")
     # block bodies executed anywhere else must not exist without a scope: every ExecStmt::visit_block call site
     # outside visit_block/visit_program dispatch is in one of the functions above
     for fn, bi, t in common.who_calls(F, lambda c: c.get("resolved") == "<exec::exec_stmt::ExecStmt<'a, I, O> as analysis::visit::VisitProgram>::visit_block"):
@@ -81,7 +82,7 @@ def lookup_order_rule(ctx, env):
     st = env.get("stop_searching")
     n = 0
     for name, fn in sorted(env.items()):
-        # functions whose closures consult one SymTable: the scope walk
+        # functions that consult one SymTable at a time: the scope walk (written with combinators or as a loop)
         uses = []
         for body in F.with_closures(fn):
             for bi, t in body.calls():
@@ -93,47 +94,70 @@ def lookup_order_rule(ctx, env):
         n += 1
         rep.analysed(fn)
         key = "innermost-first::" + name
-        finds = [(bi, t) for bi, t in fn.calls() if callee_def(t) == "std::iter::Iterator::find"]
-        revs = [(bi, t) for bi, t in fn.calls() if callee_def(t) == "std::iter::Iterator::rev"]
-        ok = len(finds) == 1 and len(revs) == 1
-        why = "" if ok else "expected one rev() and one find() in the scope walk, found %d / %d" % (len(revs), len(finds))
+        ok, why = True, ""
+        # (a) every iterator over self.symbols in this function is reversed before anything else consumes it
+        iters = []
+        for bi, t in fn.calls():
+            nm = t["callee"].get("name")
+            if nm in ("iter", "iter_mut", "into_iter") and t["args"]:
+                deep = _deep_origins(fn, t["args"][0])
+                if not any(d == ("param", 1) and p[:1] == ("symbols",) for d, p in deep):
+                    continue
+                if any(d[0] == "call" and fn.term(d[1])["callee"].get("name") in ("iter", "iter_mut", "into_iter", "rev", "map", "enumerate") for d, p in deep):
+                    continue   # an adaptor of an iterator that is already counted
+                iters.append((bi, t))
+        if not iters:
+            ok, why = False, "no iteration over self.symbols found in the scope walk"
+        for bi, t in iters:
+            cons = [(b2, t2) for b2, t2 in fn.calls() if b2 != bi and t2["args"] and any(d[0] == "call" and d[1] == bi for a in t2["args"][:1] for d, _ in origins(fn, a))]
+            # look through IntoIterator::into_iter of a for loop
+            flat = []
+            for b2, t2 in cons:
+                if t2["callee"].get("name") == "into_iter":
+                    flat += [(b3, t3) for b3, t3 in fn.calls() if b3 != b2 and t3["args"] and any(d[0] == "call" and d[1] == b2 for a in t3["args"][:1] for d, _ in origins(fn, a))]
+                else:
+                    flat.append((b2, t2))
+            if not flat or any(t2["callee"].get("name") != "rev" for b2, t2 in flat):
+                ok = False
+                why = "the scopes are walked by %s without rev(): lookup starts at the outermost scope" % (sorted({t2["callee"].get("name") or "?" for b2, t2 in flat}) or "nothing")
+        # (b) the walk stops by Environment::stop_searching applied to the result of the per-scope lookup
         if ok:
-            fb, ft = finds[0]
-            rb, rt = revs[0]
-            # rev() applies to the iterator over self.symbols and feeds find()
-            sym = any(d[0] == "param" and d[1] == 1 and p[:1] == ("symbols",) for d, p in _deep_origins(fn, rt["args"][0]))
-            if not sym:
-                ok, why = False, "rev() is not applied to the iterator over self.symbols"
-            elif not flows_into(fn, rb, ft["args"][0]):
-                ok, why = False, "find() does not consume the reversed scope iterator (lookup would start at the outermost scope)"
-            else:
-                pred = ft["args"][1].get("const", {}).get("fn") if len(ft["args"]) > 1 else None
-                if st is None or pred != st.path:
-                    ok, why = False, "find() does not use Environment::stop_searching"
-        rep.ob("C05.R2", key, ok, why, fn.loc(), how="symbols.iter().rev() .. find(stop_searching)")
-    rep.floor("C05.R2", n, 3, "scope walks")
-    # stop_searching: Ok -> stop, NameNotFound -> continue, other errors -> stop
+            used = False
+            for body in F.with_closures(fn):
+                for bi, t in body.calls():
+                    if st is not None and callee_def(t) == st.path and t["args"]:
+                        if any(d[0] == "call" and (callee_def(body.term(d[1])) or "").startswith("exec::sym_table::SymTable::lookup_") for d, _ in _deep_origins(body, t["args"][0])):
+                            used = True
+                    if t["callee"].get("name") in ("find", "find_map", "skip_while", "take_while") and len(t["args"]) > 1:
+                        if st is not None and (t["args"][1].get("const") or {}).get("fn") == st.path:
+                            used = True
+            if not used:
+                ok, why = False, "the walk does not decide where to stop with Environment::stop_searching on the scope's lookup result"
+        rep.ob("C05.R2", key, ok, why, fn.loc(), how="self.symbols iterated through rev(); stop decided by stop_searching")
+    rep.floor("C05.R2", n, 2, "scope walks")
+    # stop_searching: Ok -> stop, NameNotFound -> continue, other errors -> stop  (table computed by KIND)
     if st is None:
         rep.fail("C05.R2", "anchor::stop_searching", "Environment::stop_searching not found")
     else:
         rep.analysed(st)
-        ok, why = False, "shape not recognised"
-        t0 = st.term(0)
-        if t0["k"] == "switch":
-            tg = dict((v, b) for v, b in t0["targets"])
-            okb, errb = tg.get("0"), tg.get("1")
-            if okb is not None and errb is not None:
-                ok_true = any(s["k"] == "assign" and s["pl"]["l"] == 0 and s["rv"].get("use", {}).get("const", {}).get("int") == "1" for s in st.stmts(okb))
-                et = st.term(errb)
-                err_call = et["k"] == "call" and is_callee(et, "exec::sym_table::SymTableError::is_name_not_found")
-                neg = False
-                if err_call:
-                    for s in st.stmts(et["t"]):
-                        if s["k"] == "assign" and s["pl"]["l"] == 0 and s["rv"].get("un") == "not" and op_local(s["rv"]["a"]) == et["dest"]["l"]:
-                            neg = True
-                ok = ok_true and err_call and neg
-                why = "" if ok else "table differs from Ok->stop, NameNotFound->continue, other error->stop"
-        rep.ob("C05.R2", "stop_searching-table", ok, why, st.loc(), how="3-cell table read off the switch")
+        from .. import kind as _kind, kindtables as _kt
+        I = _kind.Interp(F)
+        rows = {}
+        for o in I.run(st, [("sym", "r")]):
+            k = tuple(c_[1] for c_ in o.conds if isinstance(c_[0], tuple) and c_[0] and c_[0][0] == "is")
+            extra = [c_ for c_ in o.conds if not (isinstance(c_[0], tuple) and c_[0] and c_[0][0] == "is")]
+            rows.setdefault(k, set()).add(_kt.term(o.ret) if not extra else "depends on " + str(extra[0][0]))
+        errs = {v["name"] for v in F.adts.get("exec::sym_table::SymTableError", {"variants": []})["variants"]}
+        want = {("Ok",): {"True"}}
+        for e in errs:
+            want[("Err", e)] = {"False"} if e == "NameNotFound" else {"True"}
+        ok = rows == want and not I.incomplete and bool(errs)
+        why = ""
+        if not ok:
+            diff = sorted(k for k in set(rows) | set(want) if rows.get(k) != want.get(k))
+            why = "stop_searching differs from Ok -> stop, NameNotFound -> go on, any other error -> stop, at %s: %s" % (diff[:3], [sorted(rows.get(k, [])) for k in diff[:3]])
+        rep.ob("C05.R2", "stop_searching-table", ok, why, st.loc(), how="table over Ok and the %d error kinds computed by KIND" % len(errs))
+        rep.exhaustive["C05.R2 stop_searching over Ok / every SymTableError kind"] = True
     # creation happens in the innermost scope
     for name in ("create_var", "create_func"):
         fn = env.get(name)
@@ -167,7 +191,7 @@ def pronoun_rule(ctx, env):
     F, rep = ctx.F, ctx.rep
     writes = [(fn, bi, s) for fn, bi, kind, s in common.field_accesses(F, ENV, "last_access") if kind == "write"]
     mutrefs = [(fn, bi, s) for fn, bi, kind, s in common.field_accesses(F, ENV, "last_access") if kind == "mutref"]
-    rep.floor("C05.R3", len(writes), 4, "writes of Environment.last_access")
+    rep.floor("C05.R3", len(writes), 2, "writes of Environment.last_access")
     by_fn = {}
     for fn, bi, s in writes:
         by_fn.setdefault(common.top_fn(F, fn).path, []).append((fn, bi, s))
@@ -269,7 +293,12 @@ def call_protocol_rule(ctx, env):
         return [(bi, t) for bi, t in calls if pred(t)]
 
     L = sites(lambda t: callee_def(t) == env_method_path(env, "lookup_func"))
-    E = sites(lambda t: is_callee(t, "analysis::visit::VisitExpr::visit_expression"))
+    # argument evaluation: the visit_expression site(s) of this method or its closures, placed where they run
+    E_raw = [(b, bi, t) for b in F.with_closures(fc) for bi, t in b.calls() if is_callee(t, "analysis::visit::VisitExpr::visit_expression")]
+    E = []
+    for b, bi, t in E_raw:
+        for anc in sorted(common.site_anchors(F, fc, b, bi)):
+            E.append((anc, t))
     P = sites(lambda t: callee_def(t) in (env_method_path(env, "push_function_scope"), env_method_path(env, "push_scope")))
     N = sites(lambda t: is_callee(t, "exec::exec_stmt::ExecStmt::<'a, I, O>::new"))
     B = sites(is_exec_visit_block)
@@ -330,20 +359,27 @@ def call_protocol_rule(ctx, env):
     rep.ob("C05.R4", "order::ExecStmt::new<visit_block", ok, "" if ok else "the body does not run on a freshly created ExecStmt", fc.loc(), how="dominance")
     # all arguments are evaluated in the caller's environment: no evaluation once the callee scope exists
     after_push = fc.reachable_from_succs(pb)
-    ok = eb not in after_push and not (fc.reachable_from_succs(pb, avoid=[qb]) & {b for b, t in calls if is_callee(t, "analysis::visit::VisitExpr::visit_expression")})
+    ok = eb not in after_push and not (fc.reachable_from_succs(pb, avoid=[qb]) & {b for b, t in E})
     rep.ob("C05.R4", "arguments-evaluated-before-callee-scope", ok,
            "" if ok else "an argument expression can be evaluated after the callee's scope was pushed: it would see the parameters bound so far",
            fc.loc(et["line"]), how="visit_expression not reachable from push_function_scope")
     # forward order of arguments and parameters
-    revs = [(bi, t) for bi, t in calls if is_callee(t, "std::iter::Iterator::rev", "next_back", "pop")]
+    revs = [(bi, t) for b in F.with_closures(fc) for bi, t in b.calls() if is_callee(t, "std::iter::Iterator::rev", "next_back", "pop", "rfold", "rposition")]
     rep.ob("C05.R4", "arguments-left-to-right", not revs, "" if not revs else "%s appears in the call protocol (arguments must be evaluated and bound left to right)" % callee_def(revs[0][1]),
            fc.loc(), how="no reversal in the protocol")
-    # evaluated values are what is bound: the evaluation result feeds the container handed to push_function_scope
-    pushes = [(bi, t) for bi, t in calls if is_callee(t, "smallvec::SmallVec::<A>::push", "std::vec::Vec::<T, A>::push")]
-    ok = any(flows_into(fc, eb, t["args"][1]) for bi, t in pushes) and any(
-        any(x[0] == "call" and is_callee(fc.term(x[1]), "zip") for x, _ in origins(fc, pt["args"][i])) for i in range(1, len(pt["args"])))
-    rep.ob("C05.R4", "binds-evaluated-arguments", ok, "" if ok else "the values bound to the parameters are not the evaluated arguments zipped with data.params", fc.loc(pt["line"]),
-           how="params.iter().zip(args)")
+    # evaluated values are what is bound: the results of the argument evaluation flow (through the container they are collected
+    # in) into what push_function_scope receives, together with data.params
+    from ..flow import Labels
+    seeds = {}
+    for b, bi, t in E_raw:
+        seeds.setdefault((b.path, t["dest"]["l"]), set()).add("arg-value")
+    lab = Labels(F, fc, seeds, through_mut=True)
+    got_vals = any("arg-value" in lab.op_labels(fc, a) for a in pt["args"][1:])
+    got_params = any(px and "params" in px for a in pt["args"][1:] for x, px in kind_deep(fc, a))
+    ok = got_vals and got_params
+    rep.ob("C05.R4", "binds-evaluated-arguments", ok,
+           "" if ok else ("the values handed to push_function_scope are not the evaluated arguments" if not got_vals else "push_function_scope is not handed the callee's parameter names (data.params)"),
+           fc.loc(pt["line"]), how="evaluated arguments paired with data.params")
     # the body run is the callee's, on the fresh ExecStmt; the result is that ExecStmt's return value
     body_ok = any(px[-1:] == ("body",) for x, px in _deep_origins(fc, bt["args"][1]))
     recv_ok = any(d[0] == "call" and d[1] == nb for d, _ in origins(fc, bt["args"][0]))
